@@ -1364,6 +1364,12 @@ class Kconfig(object):
                 #           and choices every time we are loading the file.
                 for sym in self.unique_defined_syms:
                     sym._was_set = False
+                    if is_main_sdkconfig:
+                        # Forget what a previously loaded main sdkconfig said about the symbol: a symbol
+                        # that is absent from the file loaded now must not keep the old file's value as
+                        # its baseline (menuconfig would report unsaved changes right after saving).
+                        sym._sdkconfig_value = None
+                        sym._loaded_as_default = False
 
                 for choice in self.unique_choices:
                     choice._was_set = False
